@@ -6,7 +6,7 @@ CFG = dict(
     coq_targets=['props/C01.vo', 'model/AeadFrame.vo', 'model/Ctr.vo', 'model/EtM.vo', 'model/Polyval.vo', 'model/GcmSiv.vo', 'model/Xaes.vo', 'model/Envelope.vo', 'lib/XBase.vo'],
 )
 MANIFEST = dict(
-    text='Theorems in coq/props/C01.v about executable Gallina models of every AEAD key type (framing around the standard AEAD for AES-GCM/ChaCha20-Poly1305/XChaCha20-Poly1305, AES-CTR-HMAC encrypt-then-MAC, AES-GCM-SIV with POLYVAL and the RFC 8452 counter mode, XAES-256-GCM key derivation, KMS envelope framing): for every key, key id, prefix variant, IV of the right length, plaintext and associated data, Decrypt(Encrypt(p, ad), ad) = p. The model is tied to the code by recomputing the whole ciphertext from (key, IV read from the randomness tape, p, ad) and comparing it byte for byte with Tink output; the model decrypts Tink ciphertexts and Tink decrypts ciphertexts produced by the Go standard library alone.',
+    text='Theorems in coq/props/C01.v about executable Gallina models of every AEAD key type (framing around the standard AEAD for AES-GCM/ChaCha20-Poly1305/XChaCha20-Poly1305, AES-CTR-HMAC encrypt-then-MAC, AES-GCM-SIV with POLYVAL and the RFC 8452 counter mode, XAES-256-GCM key derivation, KMS envelope framing): for every key, key id, prefix variant, IV of the right length, plaintext and associated data, Decrypt(Encrypt(p, ad), ad) = p; the wire format of each scheme; and the hand-written POLYVAL kernels (mul32/mul64/polyvalDot) equal the RFC 8452 GF(2^128) specification for all field elements (bilinearity by the no-carry argument + the monomial basis). The model is tied to the code by recomputing the whole ciphertext from (key, IV read from the randomness tape, p, ad) and comparing it byte for byte with Tink output; the model decrypts Tink ciphertexts and Tink decrypts ciphertexts produced by the Go standard library alone.',
     note='Trusted: Coq kernel, ExtrOcamlBasic extraction + OCaml glue, the Go harness and the stdlib oracle (AES, GCM, ChaCha20-Poly1305, HMAC are the Go standard library / x/crypto, taken as the definition of the standard algorithms; their laws are premises of the theorems). Models are hand-written after the Go bodies; the tie is the correspondence on the explored cases.',
     technique='Coq proofs over executable Gallina models of the AEAD constructions + differential run of the extracted model (stdlib primitives via an oracle process) against tink-go with the IV fixed through a crypto/rand tape',
 )
